@@ -23,7 +23,7 @@ ASSUMPTIONS = ["reference channel simulation on dense density matrices: depolari
                "photon loss = scalar weight (1-r); 'before' noise precedes the gate, 'after' follows it; wrapper sub-gates carry their own models",
                "measuring operations are generated only where the state is still pure (the two backends define a forced measurement of a mixed state "
                "differently by design: post-selection vs per-branch)", "tolerance 1e-9"]
-REQUIRED_CLASSES = {"noisy": ["entangling", "class_U", "class_M", "two_qubit_mixed_placement", "wrapper_noise_list", "strength_0", "strength_1",
+REQUIRED_CLASSES = {"noisy": ["entangling", "class_U", "class_M", "two_qubit_mixed_placement", "wrapper_noise_list", "wrapper_single_model", "strength_0", "strength_1",
                               "before", "after", "kind:depol", "kind:pauli", "kind:loss"],
                     "large": ["qubits>=32", "kind:depol"],
                     "map": ["via_map", "wrapper_asymmetric_noise", "two_qubit_mixed_placement", "class_M", "entangling", "emitter+photon"]}
@@ -123,6 +123,13 @@ def reference(desc, circ, noise_on=True, objs=None, noises=None):
                 lst = nz if nz is not None else [None] * k
             else:
                 lst = [spec_of(x) for x in nz] if isinstance(nz, list) else [None] * k
+            if isinstance(lst, dict):
+                # one model for the whole wrapper: the channel acts after all of its gates ("After gate") or before them
+                whole = lst["whole"]
+                gates_ = [([g, d0[1], d0[2]], [None]) for g in d0[3]][::-1]
+                carrier = (["I", d0[1], d0[2]], [whole])
+                plan += (gates_ + [carrier]) if whole[2] else ([carrier] + gates_)
+                continue
             for g, s_ in list(zip(d0[3], lst))[::-1]:
                 plan.append(([g, d0[1], d0[2]], [s_]))
         elif len(gc.qregs(d0)) == 2 and not gc.measuring(d0):
@@ -184,7 +191,8 @@ def build_noisy(desc, noises, return_ops=False):
         elif d[0] in gc.ONE:
             objs.append(make_noise(nz))
         elif d[0] == "W":
-            objs.append([make_noise(s) for s in nz])
+            # a list gives every listed gate its own model; {"whole": spec} gives the wrapper one model for the whole gate
+            objs.append(make_noise(nz["whole"]) if isinstance(nz, dict) else [make_noise(s) for s in nz])
         else:
             objs.append([make_noise(nz[0]), make_noise(nz[1])])
     return gc.build(desc, objs, return_ops=return_ops)
@@ -199,6 +207,9 @@ def classes(desc, noises):
             continue
         if d[0] in gc.ONE:
             flat.append(nz)
+        elif d[0] == "W" and isinstance(nz, dict):
+            flat.append(nz["whole"])
+            cl.append("wrapper_single_model")
         elif d[0] == "W":
             flat += [s for s in nz if s is not None]
             if sum(1 for s in nz if s is not None) >= 1 and len(nz) >= 2:
@@ -420,6 +431,8 @@ def check_zero(case, sub="zero"):
             return None if s is None else ([s[0], 0.0, s[2]] if s[0] != "pauli" else ["pauli", 0, s[2]])
         if nz is None:
             zero.append(None)
+        elif isinstance(nz, dict):
+            zero.append({"whole": z(nz["whole"])})
         elif isinstance(nz[0], (list, type(None))):
             zero.append([z(s) for s in nz])
         else:
@@ -482,6 +495,9 @@ def st_case(draw, tier="quick"):
         if d[0] in gc.ONE:
             s = spec()
             noises.append(s)
+        elif d[0] == "W" and draw(st.integers(0, 3)) == 0:
+            w = spec()
+            noises.append({"whole": w} if w is not None else None)
         elif d[0] == "W":
             lst = [spec() for _ in d[3]]
             noises.append(lst if any(x is not None for x in lst) else None)
